@@ -66,6 +66,9 @@ type Property interface {
 // Optional: exhaustive flag and extra evidence.
 type Exhaustive interface{ Exhaustive(c *Ctx) bool }
 
+// Optional: input-side tags derivable from the spec alone (used for cases that killed their child).
+type SpecTagger interface{ SpecTags(spec json.RawMessage) []string }
+
 // Optional: properties may pick their own batch size (cases per child).
 type Batcher interface{ BatchSize(c *Ctx) int }
 
@@ -551,6 +554,9 @@ func Check(p Property, c *Ctx) int {
 						tags := []string{"process-death"}
 						for _, r := range co2.results {
 							tags = append(tags, r.Tags...)
+						}
+						if st, ok := p.(SpecTagger); ok && co.spec != nil {
+							tags = append(tags, st.SpecTags(co.spec)...)
 						}
 						mu.Lock()
 						all = append(all, Result{Case: co.crashAt, Verdict: Violated, Symptom: sym + nondet, Message: msg, Spec: co.spec, Tags: tags, Key: fmt.Sprintf("crash-%d", co.crashAt)})
